@@ -114,3 +114,6 @@ package specs
 //@   ensures[C06,C05] iff(err == nil, Released(newVersion(spec.Version)) &&
 //@                        !(semverCmp(MinVer(spec), newVersion(spec.Version)) > 0))
 //@   assert at return: newVersion(TrimPrefix(MinVer(spec), "v")) == MinVer(spec)
+
+// VersionOK is ValidateVersion's verdict as a predicate (C05 uses it as one conjunct of admission).
+//@ pred VersionOK(spec *Spec) = Released(newVersion(spec.Version)) && !(semverCmp(MinVer(spec), newVersion(spec.Version)) > 0)
